@@ -154,8 +154,8 @@ package combinator
 //@   ensures  seqOK(s, ctx) && len(s.nodes) >= old(len(s.nodes)) && parsley.WfCtx(ctx) && parsley.WfCache(ctx) && seqGhost(ctx)
 //@   ensures  [fixed] same(s.parserLookUp, old(s.parserLookUp)) && same(s.lenCheck, old(s.lenCheck)) && same(s.resultHandler, old(s.resultHandler)) && s.token == old(s.token) && same(s.interpreter, old(s.interpreter))
 //@   assert_at entry [sep] cap(s.nodes) == 0 || s.result == nil || !typeis[ast.NodeList](s.result) || array(s.result.(ast.NodeList)) != array(s.nodes)
-//@   assert_at call:HandleResult#1 [handler-input;C01] len(lastarg[[]parsley.Node](3)) == depth && forall k int :: 0 <= k && k < depth ==> same(lastarg[[]parsley.Node](3)[k], s.nodes[k])
-//@   assert_at call:HandleResult#2 [handler-input;C01] len(lastarg[[]parsley.Node](3)) == depth && forall k int :: 0 <= k && k < depth ==> same(lastarg[[]parsley.Node](3)[k], s.nodes[k])
+//@   assert_at call:HandleResult#1 [handler-input;C01,C04] len(lastarg[[]parsley.Node](3)) == depth && forall k int :: 0 <= k && k < depth ==> same(lastarg[[]parsley.Node](3)[k], s.nodes[k])
+//@   assert_at call:HandleResult#2 [handler-input;C01,C04] len(lastarg[[]parsley.Node](3)) == depth && forall k int :: 0 <= k && k < depth ==> same(lastarg[[]parsley.Node](3)[k], s.nodes[k])
 //@   requires [L;C06] seqErrOK(s)
 //@   ensures  [L;C06] seqErrOK(s)
 //@   ghost_at call:Parse#1 when lastres[parsley.Error](2) != nil && lastres[parsley.Error](2).Pos() > parsley.GhostBest :: parsley.GhostBest = lastres[parsley.Error](2).Pos()
